@@ -12,7 +12,7 @@ fn fmt_stub2(_a: core::fmt::Arguments<'_>) -> String {
 }
 
 const SLICE_BYTES: usize = 512; // rb slice = one 512-byte block (rb_slice_bits = 9)
-const WIN: usize = 8; // entries with arbitrary refcounts: the last 8 of the slice
+const WIN: usize = 4; // entries with arbitrary refcounts: the last 4 of the slice
 
 const SNAP: usize = 128; // bytes snapshotted: the last 128 bytes of the slice
 
@@ -25,8 +25,8 @@ fn any_slice(order: u8) -> (RefBlock, [u8; SNAP]) {
     let nb = core::cmp::max(WIN * w / 8, 1); // bytes of the window (concrete per instance)
     let init: [u8; 64] = kani::any();
     unsafe { core::ptr::copy_nonoverlapping(init.as_ptr(), rb.as_mut_ptr().add(SLICE_BYTES - nb), nb) };
-    // the entry just before the window is allocated
-    rb.increment(entries - WIN - 1).unwrap();
+    // the entry just before the arbitrary bytes is allocated
+    rb.increment(entries - nb * 8 / w - 1).unwrap();
     let snap = snap_of(&rb);
     (rb, snap)
 }
@@ -45,9 +45,9 @@ fn rc(snap: &[u8; SNAP], order: u8, j: usize) -> u64 {
 }
 
 macro_rules! alloc_step {
-    ($name:ident, $order:expr, $cblo:expr, $cbhi:expr) => {
+    ($name:ident, $order:expr, $cblo:expr, $cbhi:expr, $unw:expr) => {
         #[kani::proof]
-        #[kani::unwind(12)]
+        #[kani::unwind($unw)]
         #[kani::stub(std::fmt::format, fmt_stub2)]
         fn $name() {
             let order: u8 = $order;
@@ -55,6 +55,8 @@ macro_rules! alloc_step {
             kani::assume(cb >= $cblo && cb <= $cbhi);
             let info = mk_info(cb, order as u32, 1u64 << 40, 9, Some((9, 1024)), Some((9, 1024)), false, false, false);
             let mut env = KEnv::new(info);
+            let nf0: bool = kani::any();
+            env.mark_need_flush(nf0);
             let entries = (SLICE_BYTES * 8) >> order;
             assert!(env.info.rb_slice_entries() as usize == entries);
             let (rb, before) = any_slice(order);
@@ -74,7 +76,7 @@ macro_rules! alloc_step {
             let after = snap_of(&h.value().kwrite());
             let slice_start = host & !((cs << (12 - order as u32)) - 1);
             let j: usize = kani::any();
-            kani::assume(j >= entries - WIN - 1 && j < entries);
+            kani::assume(j >= entries - 9 && j < entries);
             match &r {
                 Ok(Some((off, n))) => {
                     let (off, n) = (*off, *n);
@@ -100,12 +102,14 @@ macro_rules! alloc_step {
                 }
                 Ok(None) => {
                     assert!(rc(&after, order, j) == rc(&before, order, j));
-                    assert!(!h.is_dirty() && !env.need_flush_meta());
+                    assert!(!h.is_dirty() && env.need_flush_meta() == nf0);
                     kani::cover!(start + count > entries, "request crossing the slice end is refused");
                     kani::cover!(start + count <= entries);
                 }
                 Err(_) => assert!(false),
             }
+            // a step never clears the device-wide flag
+            assert!(!nf0 || env.need_flush_meta());
             core::mem::forget(r);
             core::mem::forget(env);
         }
@@ -119,10 +123,10 @@ macro_rules! alloc_step {
 // @timeout 1500
 // @needs A1
 // @desc one allocator step (whole body of try_alloc_from_rb_slice, lock and cache lookup shimmed) from an ARBITRARY refcount slice state at 16-bit refcounts: the run returned is contiguous, inside the slice, at or after the requested position, 1 <= n <= count (n == count when fixed_start), every cluster in it had refcount 0 before and 1 after, no other counter changes, the slice is marked dirty and need_flush set; a request crossing the slice end is refused without any change; None leaves everything untouched
-// @bounds slice: real 512-byte slice, arbitrary refcounts in its last 8 entries, entry before them in use, rest free; requested position inside those 8 entries; count 1..=3; fixed_start symbolic; cluster_bits 16 (concrete; the index arithmetic is decided for all cluster sizes by c15_host_cluster); refcount_order 4 (concrete per instance)
+// @bounds slice: real 512-byte slice, arbitrary refcounts in its last 4 entries, entry before them in use, rest free; requested position inside those 4 entries; count 1..=3; fixed_start symbolic; cluster_bits 16 (concrete; the index arithmetic is decided for all cluster sizes by c15_host_cluster); refcount_order 4 (concrete per instance)
 // @funcs Qcow2Dev::try_alloc_from_rb_slice (whole body) RefBlock::get_free_range RefBlock::get_tail_free_range RefBlock::alloc_range HostCluster::rb_slice_index HostCluster::cluster_off_from_slice
 // @stub alloc::fmt::format -> String::new()
-alloc_step!(c08_alloc_step_o4, 4, 16, 16);
+alloc_step!(c08_alloc_step_o4, 4, 16, 16, 7);
 
 // @harness c08_alloc_step_o0
 // @props C08 C03 C18
@@ -134,7 +138,7 @@ alloc_step!(c08_alloc_step_o4, 4, 16, 16);
 // @bounds as c08_alloc_step_o4 with refcount_order 0
 // @funcs Qcow2Dev::try_alloc_from_rb_slice (whole body) RefBlock::get_free_range RefBlock::get_tail_free_range RefBlock::alloc_range
 // @stub alloc::fmt::format -> String::new()
-alloc_step!(c08_alloc_step_o0, 0, 16, 16);
+alloc_step!(c08_alloc_step_o0, 0, 16, 16, 11);
 
 // @harness c08_alloc_step_o6
 // @props C08 C03 C18
@@ -146,7 +150,7 @@ alloc_step!(c08_alloc_step_o0, 0, 16, 16);
 // @bounds as c08_alloc_step_o4 with refcount_order 6
 // @funcs Qcow2Dev::try_alloc_from_rb_slice (whole body) RefBlock::get_free_range RefBlock::get_tail_free_range RefBlock::alloc_range
 // @stub alloc::fmt::format -> String::new()
-alloc_step!(c08_alloc_step_o6, 6, 16, 16);
+alloc_step!(c08_alloc_step_o6, 6, 16, 16, 7);
 
 // @harness c08_alloc_step_o2
 // @props C08 C03 C18
@@ -158,7 +162,7 @@ alloc_step!(c08_alloc_step_o6, 6, 16, 16);
 // @bounds as c08_alloc_step_o4 with refcount_order 2
 // @funcs Qcow2Dev::try_alloc_from_rb_slice (whole body)
 // @stub alloc::fmt::format -> String::new()
-alloc_step!(c08_alloc_step_o2, 2, 16, 16);
+alloc_step!(c08_alloc_step_o2, 2, 16, 16, 7);
 
 // @harness c08_alloc_step_o3
 // @props C08 C03 C18
@@ -170,12 +174,12 @@ alloc_step!(c08_alloc_step_o2, 2, 16, 16);
 // @bounds as c08_alloc_step_o4 with refcount_order 3
 // @funcs Qcow2Dev::try_alloc_from_rb_slice (whole body)
 // @stub alloc::fmt::format -> String::new()
-alloc_step!(c08_alloc_step_o3, 3, 16, 16);
+alloc_step!(c08_alloc_step_o3, 3, 16, 16, 7);
 
 macro_rules! free_step {
-    ($name:ident, $order:expr, $cblo:expr, $cbhi:expr) => {
+    ($name:ident, $order:expr, $cblo:expr, $cbhi:expr, $unw:expr) => {
         #[kani::proof]
-        #[kani::unwind(12)]
+        #[kani::unwind($unw)]
         #[kani::stub(std::fmt::format, fmt_stub2)]
         fn $name() {
             let order: u8 = $order;
@@ -183,6 +187,8 @@ macro_rules! free_step {
             kani::assume(cb >= $cblo && cb <= $cbhi);
             let info = mk_info(cb, order as u32, 1u64 << 40, 9, Some((9, 1024)), Some((9, 1024)), false, false, false);
             let mut env = KEnv::new(info);
+            let nf0: bool = kani::any();
+            env.mark_need_flush(nf0);
             let entries = (SLICE_BYTES * 8) >> order;
             let (rb, before) = any_slice(order);
             env.rb_slice = Some(KHandle::new(rb));
@@ -210,7 +216,7 @@ macro_rules! free_step {
             let h = env.rb_slice.as_ref().unwrap();
             let after = snap_of(&h.value().kwrite());
             let j: usize = kani::any();
-            kani::assume(j >= entries - WIN - 1 && j < entries);
+            kani::assume(j >= entries - 9 && j < entries);
             let b = rc(&before, order, j);
             let a = rc(&after, order, j);
             if j >= start && j < start + count {
@@ -237,6 +243,8 @@ macro_rules! free_step {
             kani::cover!(first_free.is_some() && new_hint < hint);
             kani::cover!(first_free.is_none(), "still referenced elsewhere");
             kani::cover!(count == 3);
+            // a step never clears the device-wide flag
+            assert!(!nf0 || env.need_flush_meta());
             core::mem::forget(r);
             core::mem::forget(env);
         }
@@ -250,11 +258,11 @@ macro_rules! free_step {
 // @timeout 1500
 // @needs A0
 // @desc one free step (whole body of free_clusters, lock and cache lookup shimmed) from an arbitrary refcount slice state at 16-bit refcounts: every cluster of the run loses exactly one reference, no other counter changes, the slice is marked dirty and need_flush set, the allocation hint never moves up and becomes min(old hint, first cluster whose count reached 0)
-// @bounds slice: real 512-byte slice, arbitrary refcounts in its last 8 entries; run of 1..=3 clusters inside them, each with refcount >= 1 (the caller's references); cluster_bits 16 (concrete); any old hint
+// @bounds slice: real 512-byte slice, arbitrary refcounts in its last 4 entries; run of 1..=3 clusters inside them, each with refcount >= 1 (the caller's references); cluster_bits 16 (concrete); any old hint
 // @funcs Qcow2Dev::free_clusters (whole body) RefBlock::decrement HostCluster::{rt_index,rb_slice_index,rb_slice_host_end}
 // @stub alloc::fmt::format -> String::new()
 // @assume every freed cluster has refcount >= 1 (a free of an unreferenced cluster panics in decrement().unwrap())
-free_step!(c08_free_step_o4, 4, 16, 16);
+free_step!(c08_free_step_o4, 4, 16, 16, 7);
 
 // @harness c08_free_step_o1
 // @props C08 C03 C18
@@ -266,7 +274,7 @@ free_step!(c08_free_step_o4, 4, 16, 16);
 // @bounds as c08_free_step_o4 with refcount_order 1
 // @funcs Qcow2Dev::free_clusters (whole body) RefBlock::decrement
 // @stub alloc::fmt::format -> String::new()
-free_step!(c08_free_step_o1, 1, 16, 16);
+free_step!(c08_free_step_o1, 1, 16, 16, 7);
 
 // @harness c08_free_step_o6
 // @props C08 C03 C18
@@ -278,4 +286,4 @@ free_step!(c08_free_step_o1, 1, 16, 16);
 // @bounds as c08_free_step_o4 with refcount_order 6
 // @funcs Qcow2Dev::free_clusters (whole body) RefBlock::decrement
 // @stub alloc::fmt::format -> String::new()
-free_step!(c08_free_step_o6, 6, 16, 16);
+free_step!(c08_free_step_o6, 6, 16, 16, 7);
